@@ -173,6 +173,14 @@ public final class BigRatOverrides {
         return ge ? e : e - 1;
     }
 
+    /** 2-adic valuation of a # 0: the largest e with a / 2^e an odd-over-odd rational. */
+    @TLAPlusOperator(identifier = "BRVal2", module = "BigRat", warn = false)
+    public static Value val2(final Value a) {
+        Q x = dec(a);
+        if (x.n.signum() == 0) throw new ArithmeticException("BRVal2(0)");
+        return IntValue.gen(x.n.getLowestSetBit() - x.d.getLowestSetBit());
+    }
+
     /** Largest (dir = -1) / smallest (dir = +1) multiple of 2^-bits that is <= / >= a. */
     @TLAPlusOperator(identifier = "BRTrunc", module = "BigRat", warn = false)
     public static Value trunc(final Value a, final Value bits, final Value dir) {
